@@ -32,6 +32,10 @@ NP(id, m, p, pre, ser) == O(id, m, p, "-", "-", << >>, "none", << >>, pre, "none
 EV(p, f) == [NP(p \o ":file=" \o f, "environment", p, "ok", FALSE) EXCEPT !.file = f]
 
 QuickOps == {
+  [PO("A:obj-dcn", "parse_object", "A", "ok", "none", "none", "ok") EXCEPT !.spec = "dcn"],   \*   through parse_object,
+  [PO("A:str-dc1", "parse_string", "A", "ok", "none", "none", "ok") EXCEPT !.spec = "dc1"],   \*   through parse_string
+  PA("B:dgn",             "B", DefKW, <<"dgn">>, "none", << >>),                 \* plain --d: Data added with add_argument
+  PA("B:dg1",             "B", DefKW, <<"dg1">>, "none", << >>),
   NP("A:format_help",     "format_help", "A", "ok", FALSE),
   NP("B:format_help",     "format_help", "B", "ok", FALSE),
   PA("B:help",            "B", DefKW, <<"help">>, "none", << >>),
@@ -82,6 +86,12 @@ QuickOps == {
   PA("B:pc,bad",          "B", DefKW, <<"pc", "bad">>, "none", << >>)
 }
 MoreOps == {
+  PA("A:dc1",             "A", DefKW, <<"dc1">>, "none", << >>),                 \* dataclass-typed argument (Optional[Data] of a function signature): one nested field,
+  PA("A:dcn",             "A", DefKW, <<"dcn">>, "none", << >>),                 \*   several nested fields,
+  PA("A:dcd",             "A", DefKW, <<"dcd">>, "none", << >>),                 \* the whole dataclass group as a dict
+  PA("A:cfgdc",           "A", DefKW, <<"cfgdc">>, "none", << >>),               \* ... through --cfg
+  [PO("A:env-dcn", "parse_env", "A", "ok", "none", "none", "ok") EXCEPT !.spec = "dcn"],
+  [PO("B:obj-dc1", "parse_object", "B", "ok", "none", "none", "ok") EXCEPT !.spec = "dc1"],
   PA("A:shtab",           "A", DefKW, <<"shtab">>, "none", << >>),                \* leaves the ShtabResidue behind
   EV("A", "v1"), EV("A", "absent"),                                             \* the default config file of A appears / disappears between calls
   PA("A:b/ok",            "A", DefKW, << >>, "b", <<"ok">>),
